@@ -34,8 +34,8 @@ REGISTRY = dict(
 ALPHABET = seeds.ALPHABET
 
 TIERS = {
-    "quick": dict(maxlen=2, places=seeds.PLACES, maxlen_deep=2, deep_places=[], sq_places=["const", "ann_field"], deep_sq_places=[]),
-    "thorough": dict(maxlen=2, places=seeds.PLACES, maxlen_deep=3, deep_places=["const", "ann_field", "include"], sq_places=seeds.PLACES,
+    "quick": dict(maxraw=3, raw_places={3: ["const"], 2: ["const", "default", "ann_field", "include"]}, maxlen=2, places=seeds.PLACES, maxlen_deep=2, deep_places=[], sq_places=["const", "ann_field"], deep_sq_places=[]),
+    "thorough": dict(maxraw=3, raw_places={3: ["const", "default", "ann_field", "ann_type", "include"]}, maxlen=2, places=seeds.PLACES, maxlen_deep=3, deep_places=["const", "ann_field", "include"], sq_places=seeds.PLACES,
                      deep_sq_places=["const"]),
 }
 
@@ -46,6 +46,10 @@ CONSTANTS
   MaxLen = %d
   MaxArgs = 3
   MaxThrows = 3
+  RawAlphabet <- cRawAlphabet
+  MaxRaw = %d
+  NumClasses <- cNumClasses
+  NumPlaces <- cNumPlaces
 INVARIANT Emit
 CHECK_DEADLOCK FALSE
 """
@@ -55,9 +59,15 @@ def tla_str(s):
     return '"' + s.replace("\\", "\\\\").replace('"', '\\"') + '"'
 
 
+# pieces of raw source text between the quotes (characters); judged by AST1 = AST2 only
+RAW_ALPHABET = ["a", "\\t", "\\w", "\\\\", "\\\"", "\\'", "\"", "'"]
+
+
 def mc_module():
     syms = ", ".join("<<" + ", ".join(tla_str(a) for a in seeds.alpha_atoms(sym)) + ">>" for sym in ALPHABET)
-    return ("---- MODULE MC_RtGen ----\nEXTENDS RtGen\ncAlphabet == <<%s>>\n====\n" % syms)
+    raws = ", ".join("<<" + ", ".join(tla_str(c) for c in piece) + ">>" for piece in RAW_ALPHABET)
+    return ("---- MODULE MC_RtGen ----\nEXTENDS RtGen\ncAlphabet == <<%s>>\ncRawAlphabet == <<%s>>\ncNumClasses == {%s}\ncNumPlaces == {%s}\n====\n" % (
+        syms, raws, ", ".join(tla_str(c) for c in sorted(seeds.NUM_CLASSES)), ", ".join(tla_str(c) for c in seeds.NUM_PLACES)))
 
 
 def inproc(ctx):
@@ -200,11 +210,15 @@ def run(ctx, args):
     T = TIERS[ctx.tier]
 
     # ---- 1. TLC: literal contents and function shapes
-    r = ctx.tlc("Lexical", "MC_RtGen", "gen.cfg", files={"gen.cfg": GEN_CFG % T["maxlen_deep"], "MC_RtGen.tla": mc_module()},
+    r = ctx.tlc("Lexical", "MC_RtGen", "gen.cfg", files={"gen.cfg": GEN_CFG % (T["maxlen_deep"], T["maxraw"]), "MC_RtGen.tla": mc_module()},
                 timeout=1200, label="RtGen[len<=%d]" % T["maxlen_deep"])
-    lits, shapes = [], []
+    lits, shapes, raws, nums = [], [], [], []
     for s in r["lines"]:
-        if s.startswith("LIT "):
+        if s.startswith("NUM "):
+            nums.append(json.loads(s[4:]))
+        elif s.startswith("RAW "):
+            raws.append(json.loads(s[4:]))
+        elif s.startswith("LIT "):
             lits.append(json.loads(s[4:]))
         elif s.startswith("SVC "):
             shapes.append(json.loads(s[4:]))
@@ -247,6 +261,37 @@ def run(ctx, args):
         p = seeds.service_program(s, k)
         progs.append((p, "function args=%d throws=%d oneway=%s ids=%s" % (s["na"], s["nt"], s["ow"], s["ids"]),
                       {"family": "function", "args": s["na"], "throws": s["nt"], "oneway": s["ow"]}))
+    # numeric boundary family: doubles around the integer range (sign x magnitude class x place, enumerated by TLC)
+    nums.sort(key=lambda x: json.dumps(x, sort_keys=True))
+    for k, x in enumerate(nums):
+        p = seeds.numeric_program(x["sign"], x["cls"], x["place"], k)
+        progs.append((p, "double %s%s place=%s" % (x["sign"], x["cls"], x["place"]),
+                      {"family": "double", "cls": x["cls"], "sign": x["sign"], "place": x["place"]}))
+    if len(nums) != 2 * len(seeds.NUM_CLASSES) * len(seeds.NUM_PLACES) or not any(x["cls"] == "2p63" for x in nums):
+        raise vlib.MachineryError("vacuous universe: numeric boundary family incomplete (%d cases)" % len(nums))
+    # raw source literals, both quote styles where the grammar closes them; no content model: AST1 = AST2 decides
+    raws.sort(key=lambda x: (len(x["syms"]), x["syms"]))
+    nraw = 0
+    for x in raws:
+        n = len(x["syms"])
+        places = T["raw_places"].get(n) or T["raw_places"][max(T["raw_places"])]
+        pieces = [RAW_ALPHABET[i - 1] for i in x["syms"]]
+        if "".join(pieces) != x["text"]:
+            raise vlib.MachineryError("raw literal text of the spec differs from the piece table: %r" % x)
+        feat = "+".join(sorted(set(("bs-dq" if pc == "\\\"" else "bs-sq" if pc == "\\'" else "bs-bs" if pc == "\\\\" else
+                                     "bs-x" if pc.startswith("\\") else "dq" if pc == '"' else "sq" if pc == "'" else "plain")
+                                    for pc in pieces)))
+        for q, okq in (('"', x["dq"]), ("'", x["sq"])):
+            if not okq:
+                continue
+            for place in places:
+                nraw += 1
+                p = seeds.raw_literal_program(place, x["text"], q, nraw)
+                progs.append((p, "rawliteral place=%s quote=%s pieces=%d [%s]" % (place, q, n, feat),
+                              {"family": "rawliteral", "place": place, "quote": q, "has": feat}))
+    if nraw < 200 or not any(r_["family"] == "rawliteral" and "bs-dq" in r_["has"] and "bs-x" in r_["has"] and r_["quote"] == "'"
+                             for _, _, r_ in progs):
+        raise vlib.MachineryError("vacuous universe: raw source literals with an escape followed by \\\" in single quotes are missing")
     names = [p["name"] for p, _, _ in progs]
     if len(set(names)) != len(names):
         raise vlib.MachineryError("duplicate program names")
@@ -260,12 +305,16 @@ def run(ctx, args):
         o["_req"] = req
         if o.get("parse1_err") or o.get("sem1_err") or o["stage"] in ("parse1", "sem1"):
             # the original is not an accepted program: outside the quantifier (a panic there is C03/C04/C05 business)
-            if rec["family"] in ("base", "function"):
+            if rec["family"] in ("base", "function", "double"):
                 raise vlib.MachineryError("universe program %s is not accepted: %s %s %s" % (
                     p["name"], o.get("parse1_err"), o.get("sem1_err"), o.get("panic")))
             skipped[rec["family"]] = skipped.get(rec["family"], 0) + 1
             continue
         items.append((p["name"], cls, rec, o))
+    nrawacc = sum(1 for it in items if it[2]["family"] == "rawliteral")
+    if nrawacc < 0.9 * nraw:
+        raise vlib.MachineryError("only %d of %d raw-literal programs are accepted programs" % (nrawacc, nraw))
+    ctx.extra_cov["raw_source_literals"] = nrawacc
     nlit = sum(1 for it in items if it[2]["family"] == "literal")
     ntot = sum(1 for _, _, rec in progs if rec["family"] == "literal")
     if nlit < 0.9 * ntot:
@@ -291,8 +340,10 @@ def run(ctx, args):
         assumptions=["both ASTs are projected after CheckAll (FixWarnings off) + ResolveSymbols, as the trimmer dumps a resolved AST",
                      "a double may come back as an integer literal of equal value (Norm in Roundtrip.tla treats both directions alike)",
                      "cpp_type, comments and literals containing raw line breaks are outside the universe",
-                     "literal contents in which a backslash stands immediately before a quote character are outside the universe (the "
+                     "content-level literals (family literal) in which a backslash stands immediately before a quote character are outside the universe (the "
                      "alphabet symbols \\\\\" and \\\\' and the sequences backslash + quote): per docs/string-literals-in-the-IDL.md the walker "
-                     "keeps a backslash pair, so such contents cannot be written in double quotes at all (LexLit.tla WalkLit / Plain)",
+                     "keeps a backslash pair, so such contents cannot be written in double quotes at all (LexLit.tla WalkLit / Plain); they are covered "
+                     "at source level by family rawliteral (raw source texts over %s up to %d pieces, both quote styles), judged by AST1 = AST2 only" % (
+                         RAW_ALPHABET, T["maxraw"]),
                      "documents whose original is rejected by parser or checker are outside the quantifier and skipped"],
         trusted=["TLC", "harness/cmd/inproc/lexical.go (projection)", "lib/idl.py renderer"])
